@@ -392,4 +392,10 @@ def r3_12(ctx):
     borrow(ctx, r18_4, "R18.4", "R3.12", " [the colour parameters in the stream are the standard ones for the segment's colour: 30-37 / 90-97 split at index 8, 38;5;n, 38;2;r;g;b - a terminal reads a bare 38 as a malformed extended colour]")
 
 
-RULES = [r3_1, r3_2, r3_3, r3_4, r3_5, r3_6, r3_7, r3_8, r3_9, r3_10, r3_11, r3_12]
+def r3_13(ctx):
+    from .c06 import r6_4
+    from .common import borrow as _borrow
+    _borrow(ctx, r6_4, "R6.4", "R3.13", " [the SGR parameters written for a segment are those of the COMBINED style of its layers: a later layer's explicit `on default` must override an earlier background (49, not 44)]")
+
+
+RULES = [r3_1, r3_2, r3_3, r3_4, r3_5, r3_6, r3_7, r3_8, r3_9, r3_10, r3_11, r3_12, r3_13]
